@@ -87,7 +87,9 @@ def main():
         return 1
     tp = sh(["cargo", "test", "--workspace", "--no-fail-fast", "--offline"], cwd=WT, env=env)
     tout = tp.stdout.decode("utf-8", "replace")
-    passed = "137 passed; 0 failed" in tout and tp.returncode == 0
+    import re as _re
+    mt = _re.search(r"test result: ok\. (\d+) passed; 0 failed", tout)
+    passed = bool(mt) and int(mt.group(1)) >= 137 and tp.returncode == 0  # a change may add tests of its own
     meta["ran"].append({"cmd": "cargo test --workspace --no-fail-fast --offline (patched)", "ok": passed})
     changed = build("changed")
     if not changed:
